@@ -19,7 +19,7 @@ CLAIM = dict(
           "access lies inside the issuing view's range, inside the allocation, on the allocation's chip and is "
           "non-empty (confinement); every read/write/seek/tell refines a fixed-length file with a position "
           "(bytes returned, truncation at the end with a warning, position advances by the bytes transferred, "
-          "memory outside the view untouched); a slice covers exactly the sub-range Python's slice.indices names; "
+          "memory outside the view untouched), call by call and for whole histories on a view; a slice covers exactly the sub-range Python's slice.indices names; "
           "after close or free every I/O operation raises OSError and no access is ever issued again. Tied to the "
           "code by exact correspondence of whole histories against a recording controller, with the Lean "
           "specification evaluated on every observed call of the implementation."),
@@ -32,7 +32,7 @@ CLAIM = dict(
     technique="Lean 4 theorems over a hand-written model + differential correspondence + Lean spec as oracle")
 
 THEOREMS = ["step_confined", "step_WF", "run_confined", "run_confined_alloc", "slice_exact", "slice_within_parent",
-            "step_refines_file", "read_back", "close_closes", "dead_after_close", "free_frees",
+            "step_refines_file", "run_refines_file", "read_back", "close_closes", "dead_after_close", "free_frees",
             "no_access_after_free", "orig_read_escapes_below", "orig_write_escapes_above", "fix_conservative",
             "seek_end_sign"]
 
@@ -192,6 +192,7 @@ def run_impl(case):
     mc = fake_class()(base, case["win"], start)
     root = make_root(case, mc)
     views = [root]
+    root0 = snap(root)
     outs, steps = [], []
     for op in case["ops"]:
         v = views[op["v"]]
@@ -219,7 +220,7 @@ def run_impl(case):
         outs.append(out)
         steps.append({"root": op["v"] == 0, "pre": pre, "freed": freed, "op": op, "out": out,
                       "post": snap(v), "pfreed": bool(root._freed), "nv": nv, "win": list(mc.mem)})
-    return {"outs": outs, "steps": steps, "views": [snap(v) for v in views],
+    return {"outs": outs, "steps": steps, "views": [snap(v) for v in views], "root0": root0,
             "freed": bool(root._freed), "win": list(mc.mem), "alloc": getattr(mc, "alloc", None)}
 
 
@@ -236,6 +237,10 @@ def lean_reqs(case, impl):
             tr[k] = case[k]
     ck = {"suite": "c13", "op": "check", "x": case["x"], "y": case["y"], "base": base, "win": case["win"],
           "steps": [dict(s, out={k: s["out"][k] for k in ("ret", "warn", "acc")}) for s in impl["steps"]]}
+    if impl["alloc"] is not None:
+        # the view must span exactly what was allocated: sdram_alloc(size) returned `start`
+        ck["alloc"] = [start, impl["alloc"][0]]
+        ck["root"] = impl["root0"]
     return [tr, ck]
 
 
@@ -274,6 +279,8 @@ def judge(case, impl, model, check):
         for i, fails in enumerate(check["fails"]):
             if fails:
                 viol.append((i, key_of(fails), fails))
+        if check.get("root"):
+            viol.append((-1, "confinement", ["root-view-is-not-the-allocation"]))
     # an extra controller access in the same call: judge its confinement here
     for i, o in enumerate(impl["outs"]):
         for a in o.get("extra_acc", []):
@@ -333,7 +340,7 @@ def shrink(ctx, case, key, budget=60):
     f = fails(case)
     if not f:
         return case
-    case = dict(case, ops=case["ops"][:f[0] + 1])
+    case = dict(case, ops=case["ops"][:max(f[0], 0) + 1])
     changed = True
     while changed and budget > 0:
         changed = False
@@ -379,7 +386,10 @@ def process(ctx, cases):
             (mm2, viol2, im2), = eval_cases(ctx, [small])
             first = next(((i, cl) for i, k, cl in viol2 if k == key), None)
             detail = ""
-            if first:
+            if first and first[0] < 0:
+                detail = " | the view created for an allocation of %r bytes at %r is %r" % (
+                    im2["alloc"][0], small["start"], im2["root0"])
+            elif first:
                 st = im2["steps"][first[0]]
                 detail = " | step %d: view [start,stop,offset,closed]=%r freed=%r op=%r -> %r, view after %r; failed clauses %r" % (
                     first[0], st["pre"], st["freed"], st["op"], st["out"], st["post"], first[1])
@@ -518,7 +528,14 @@ def corpus_cases():
         [{"k": "slice", "v": 0, "a": -3, "b": None, "s": 1}, {"k": "free", "v": 0}, {"k": "read", "v": 1, "n": 1},
          {"k": "close", "v": 1}, {"k": "free", "v": 0}, {"k": "free", "v": 1}],
     ]
-    return [dict(base, ops=h) for h in hs]
+    cases = [dict(base, ops=h) for h in hs]
+    import glob
+    import json
+    import os
+    d = os.path.join(os.path.dirname(os.path.dirname(os.path.abspath(__file__))), "corpus", "C13")
+    for f in sorted(glob.glob(os.path.join(d, "*.json"))):
+        cases.append(json.load(open(f))["case"])
+    return cases
 
 
 def run(ctx):
